@@ -1,3 +1,4 @@
+import GoRes.Lemmas.GetReq
 import GoRes.Model.Req
 import GoRes.Lemmas.Req
 /-! # C04 — every request gets exactly one response, whatever the handler does
@@ -54,5 +55,47 @@ theorem panic_absorbed (cfg : HCfg) (r : ReqIn) (s : St) (p : PanicV) :
 def cfg0 : HCfg := ⟨true, true, true, [[109]], [], 1, .absent, .absent, .absent, .absent, .absent, 0⟩
 def req0 : ReqIn := ⟨.call, [97], [110, 101, 119], true, [], .ok, [], false, none, none, []⟩
 example : ¬ Unanswered cfg0 req0 := by simp [Unanswered, req0]
+
+/-! ## `Resource.Value()` inside a handler (`getrequest.go`, `Model/GetReq.lean`)
+
+A handler may call `r.Value()`, which runs the resource's Get handler on an in-memory request.
+Whatever that Get handler does — replies once, twice, not at all, panics with any value before or
+after replying, calls `Value()` itself — `Value()` returns normally with a result decided by the first
+action that replies or panics, so the outer request is answered exactly as if `Value()` were a plain
+function call (the theorems above then apply to the outer handler's script). -/
+
+open GoRes.GetReq in
+/-- **the first reply (or panic) of the Get handler decides what `Value()` returns**; later replies,
+panics and errors change nothing -/
+theorem nested_value_first_reply_decides (hasGet : Bool) (missing : Str) (script : List Act) :
+    valueOf hasGet missing script = spec hasGet missing script :=
+  valueOf_eq_spec hasGet missing script
+
+open GoRes.GetReq in
+/-- `Value()` always returns, with an error whenever it has no value from a reply: never both a stored
+value and an error -/
+theorem nested_value_never_both (hasGet : Bool) (missing : Str) (script : List Act) :
+    (valueOf hasGet missing script).1 = none ∨ (valueOf hasGet missing script).2 = none := by
+  rw [valueOf_eq_spec]
+  unfold spec
+  cases hasGet with
+  | false => exact Or.inl rfl
+  | true =>
+    simp only [Bool.not_true, Bool.false_eq_true, if_false]
+    cases firstOutcome script <;> simp
+
+open GoRes.GetReq in
+/-- without a Get handler `Value()` reports not-found; a handler that returns without replying gives the
+internal missing-response error -/
+theorem nested_value_defaults (missing : Str) (script : List Act) :
+    valueOf false missing script = (none, some errNotFound) ∧
+    valueOf true missing [] = (none, some (.res GetReq.codeInternal missing)) := ⟨rfl, rfl⟩
+
+-- non-vacuity: reply, then a second reply (which panics inside the handler), then an error: the first value stands
+open GoRes.GetReq in
+example : valueOf true [1] [.timeout, .model [2], .collection [3], .error (.other [4])] = (some [2], none) := by decide
+open GoRes.GetReq in
+example : valueOf true [1] [.value, .model [2]] =
+    (none, some (.res GetReq.codeInternal (b!"Internal error: Value() called within get request handler"))) := by decide
 
 end GoRes.Props.C04
